@@ -217,6 +217,10 @@ package connect
 //@     invariant rangeindex >= 5 ==> timeout / 3600000000000 >= 10000000
 //@     decreases 6 - rangeindex
 
+//@ func asError(err) (res, ok)
+//@   tags C02, C03, C04, C06, C15
+//@   ensures ok == coded(err) && (ok ==> res == asErr(err)) && (!ok ==> res == nil)     // label: first-connect-error-in-chain
+
 //@ func errorf(c, template, args) res
 //@   tags C02, C06, C10, C15
 //@   ensures fresh(res) && res.code == c && asErr(res) == res && dtypeIs(res, "*Error")            // label: coded
@@ -290,3 +294,48 @@ package connect
 //@     invariant 0 - 1 <= rangeindex && rangeindex < |h.protocolHandlers| && protocolHandler == nil
 //@     invariant forall j int :: {h.protocolHandlers[j]} 0 <= j && j <= rangeindex ==> !mapdom(cast(ctmap(h.protocolHandlers[j]), "map[string]struct{}"), contentType)
 //@     decreases |h.protocolHandlers| - rangeindex
+
+// ---------------------------------------------------------------------------
+// envelope.go
+// ---------------------------------------------------------------------------
+
+//@ func (*envelope).IsSet(e, flag) res
+//@   tags C01, C03, C04, C07, C08
+//@   requires e != nil
+//@   ensures res == (band(e.Flags, flag) == flag)
+
+//@ func isSizeZeroPrefix(prefix) res
+//@   tags C01, C03, C04, C07, C09
+//@   ensures res == (prefix[1] == 0 && prefix[2] == 0 && prefix[3] == 0 && prefix[4] == 0)   // label: all-length-bytes-zero
+//@   loop 1:
+//@     invariant 1 <= i && i <= 5 && (forall j int :: {prefix[j]} 1 <= j && j < i ==> prefix[j] == 0)
+//@     decreases 5 - i
+
+// frameOK(S, N): S starts with a complete envelope whose declared length respects the limit N (N <= 0: no limit).
+//@ spec declared(s seq) int = be32(s, 1)
+//@ spec withinLimit(n int, limit int) bool = limit <= 0 || n <= limit
+
+//@ func (*envelopeReader).Read(r, env) res
+//@   tags C01, C03, C04, C07, C09, C15
+//@   requires r != nil && r.reader != nil && env != nil && env.Data != nil && owned(env.Data)
+//@   assigns env.Flags, view(env.Data), rest(r.reader)
+//@   ensures let S := old(rest(r.reader)) in |S| >= 5 && withinLimit(declared(S), r.readMaxBytes) && |S| >= 5 + declared(S) ==> res == nil && env.Flags == S[0] && view(env.Data) == old(view(env.Data)) ++ S[5:5+declared(S)] && rest(r.reader) == S[5+declared(S):]   // label: complete-frame-delivered
+//@   ensures |old(rest(r.reader))| == 0 && termerr(r.reader) == io.EOF ==> res != nil && Is(res, io.EOF)      // label: clean-end-is-eof
+//@   ensures res != nil && Is(res, io.EOF) && !coded(termerr(r.reader)) && !Is(termerr(r.reader), io.EOF) ==> false   // label: no-eof-from-failed-transport   // tags: C04
+//@   ensures res != nil && Is(res, io.EOF) && termerr(r.reader) == io.EOF ==> |old(rest(r.reader))| == 0   // label: eof-only-at-frame-boundary
+//@   ensures let S := old(rest(r.reader)) in 0 < |S| && |S| < 5 ==> res != nil                                 // label: cut-in-prefix-is-error
+//@   ensures let S := old(rest(r.reader)) in |S| >= 5 && withinLimit(declared(S), r.readMaxBytes) && |S| < 5 + declared(S) ==> res != nil   // label: cut-in-payload-is-error
+//@   ensures let S := old(rest(r.reader)) in |S| >= 5 && r.readMaxBytes > 0 && declared(S) > r.readMaxBytes ==> res != nil && view(env.Data) == old(view(env.Data))   // label: over-limit-rejected-nothing-buffered
+//@   ensures let S := old(rest(r.reader)) in |S| >= 5 && r.readMaxBytes > 0 && declared(S) > r.readMaxBytes && (|S| >= 5 + declared(S) || termerr(r.reader) == io.EOF) ==> codeOf(res) == 3   // label: over-limit-is-invalid-argument
+//@   ensures res == nil ==> |old(rest(r.reader))| >= 5 && withinLimit(declared(old(rest(r.reader))), r.readMaxBytes)   // label: success-implies-within-limit
+//@   ensures res != nil ==> asErr(res) == res                                                                  // label: errors-are-coded
+//@   ensures res != nil && res != asErr(termerr(r.reader)) ==> res.code != 0                                   // label: own-errors-have-nonzero-code   // tags: C06
+//@   ensures res != nil && coded(termerr(r.reader)) && |old(rest(r.reader))| < 5 + (if |old(rest(r.reader))| >= 5 then declared(old(rest(r.reader))) else 0) && !(|old(rest(r.reader))| >= 5 && r.readMaxBytes > 0 && declared(old(rest(r.reader))) > r.readMaxBytes) && !(|old(rest(r.reader))| == 0 && termerr(r.reader) == io.EOF) ==> res == asErr(termerr(r.reader))   // label: coded-transport-error-passes-through   // tags: C15
+//@   assert@call((*bytes.Buffer).Grow#1): r.readMaxBytes <= 0 || size <= r.readMaxBytes                        // label: buffer-growth-within-limit   // tags: C09
+//@   loop 1:
+//@     invariant 0 <= remaining && remaining <= size && size == declared(old(rest(r.reader))) && |old(rest(r.reader))| >= 5
+//@     invariant view(env.Data) == old(view(env.Data)) ++ old(rest(r.reader))[5:5+size-remaining]
+//@     invariant rest(r.reader) == old(rest(r.reader))[5+size-remaining:] && 5 + size - remaining <= |old(rest(r.reader))|
+//@     invariant owned(env.Data) && prefixes[0] == old(rest(r.reader))[0]
+//@     assigns view(env.Data), rest(r.reader)
+//@     decreases remaining
